@@ -49,6 +49,41 @@ func c48(r *core.Run) {
 		census(r, "R2.emit", fn, "exportEvent", named("exportEvent"), 1)
 	}
 	r.Floor("R2.emit", 3)
+
+	// R3 the recursion guard of value export is scoped: in runtime.exportValue every insertion into the seen-references map is
+	// paired with a deferred delete (otherwise a reference that occurs twice in one event is exported as nil the second time)
+	if fn := mustFn(r, "R3.seenrefs", "runtime", "", "exportValue"); fn != nil {
+		ins, del := 0, 0
+		core.Instrs(fn, false, func(in ssa.Instruction) {
+			switch x := in.(type) {
+			case *ssa.MapUpdate:
+				if _, tn := core.TypeName(x.Map.Type()); tn == "seenReferences" {
+					ins++
+				}
+			case *ssa.Defer:
+				if b, ok := x.Call.Value.(*ssa.Builtin); ok && b.Name() == "delete" && len(x.Call.Args) > 0 {
+					if _, tn := core.TypeName(x.Call.Args[0].Type()); tn == "seenReferences" {
+						del++
+					}
+				}
+			}
+		})
+		r.Check(ins > 0 && ins == del, "R3.seenrefs", "runtime.exportValue: seen-references entries are removed on return", fn.Pos(), itoa(ins)+" insertions, "+itoa(del)+" deferred deletions",
+			"a reference is marked as seen ("+itoa(ins)+" insertion(s)) without a matching deferred removal ("+itoa(del)+"): the recursion guard becomes a permanent visited set and the second occurrence of the same reference in an event is exported as nil")
+	}
+	r.Floor("R3.seenrefs", 1)
+
+	// R4 every argument of a compiled emit statement is converted to its parameter type: in Compiler.VisitEmitStatement the
+	// conversion call runs on every iteration of the argument loop (it dominates every back edge), so an optional parameter
+	// receives a boxed value on every path of a branching argument
+	if fn := mustFn(r, "R4.emitconvert", "bbq/compiler", "Compiler", "VisitEmitStatement"); fn != nil {
+		n := callsDominateBackEdges(r, "R4.emitconvert", fn, func(o *types.Func) bool { return o != nil && (o.Name() == "emitConvert" || o.Name() == "emitTransferAndConvert" || o.Name() == "mustEmitTransferAndConvert") },
+			"bbq/compiler.(Compiler).VisitEmitStatement: argument conversion", "the conversion of an event argument to its parameter type is skipped on some iteration of the argument loop (e.g. when the last emitted instruction is `nil`): a branching argument reaches an optional field unboxed in the VM only")
+		if n == 0 {
+			r.Undecided("R4.emitconvert", "bbq/compiler.(Compiler).VisitEmitStatement", "no conversion call inside the argument loop")
+		}
+	}
+	r.Floor("R4.emitconvert", 1)
 }
 
 func c49(r *core.Run) {
@@ -93,19 +128,83 @@ func c49(r *core.Run) {
 	}
 	r.Floor("R1.attach", 2)
 
-	if fn := mustFn(r, "R2.remove", "interpreter", "Interpreter", "VisitRemoveStatement"); fn != nil {
+	// both engines: the interpreter's statement visitor and the VM's instruction handler
+	for _, f := range [][3]string{{"interpreter", "Interpreter", "VisitRemoveStatement"}, {"bbq/vm", "", "opRemoveTypeIndex"}} {
+		fn := mustFn(r, "R2.remove", f[0], f[1], f[2])
+		if fn == nil {
+			continue
+		}
+		key := core.SSAKey(fn)
 		rm := core.CallsTo(fn, false, named("RemoveTypeKey"))
 		ds := core.CallsTo(fn, false, named("Destroy"))
 		ok := len(rm) == 1 && len(ds) >= 1
 		if ok {
 			ok = core.Dominates(rm[0], ds[0]) && controlledBy(ds[0], "IsResourceKinded", true)
 		}
-		r.Check(ok, "R2.remove", "interpreter.(Interpreter).VisitRemoveStatement: removed resource attachment is destroyed", fn.Pos(),
-			"RemoveTypeKey precedes Destroy, which runs when the attachment is resource-kinded", "a removed resource attachment is not destroyed (or destroyed before removal / regardless of kind)")
+		r.Check(ok, "R2.remove", key+": removed resource attachment is destroyed", fn.Pos(),
+			"RemoveTypeKey precedes Destroy, which runs when the attachment is resource-kinded (IsResourceKinded)", "a removed resource attachment is not destroyed (or destroyed before removal / under another test than IsResourceKinded, e.g. a comparison of the attachment's composite kind, which is never `resource`)")
 		sb := core.CallsTo(fn, false, named("SetBaseValue"))
-		r.Check(len(sb) >= 1 && len(ds) >= 1 && core.Dominates(sb[0], ds[0]), "R2.remove", "interpreter.(Interpreter).VisitRemoveStatement: base restored before destruction", fn.Pos(),
+		r.Check(len(sb) >= 1 && len(ds) >= 1 && core.Dominates(sb[0], ds[0]), "R2.remove", key+": base restored before destruction", fn.Pos(),
 			"SetBaseValue precedes Destroy", "the attachment is destroyed without its base being set (its destructor/events cannot read base)")
 	}
-	r.Floor("R2.remove", 2)
+	r.Floor("R2.remove", 4)
+
+	// R3 the base of an attachment is always rebound: every returning path of CompositeValue.SetBaseValue assigns v.base (a
+	// resource moved within an account gets a new wrapper with the same value ID; keeping the old wrapper leaves `base`
+	// pointing at an invalidated value), and the assignment follows the base-type test
+	if fn := mustFn(r, "R3.rebind", "interpreter", "CompositeValue", "SetBaseValue"); fn != nil {
+		isStore := func(in ssa.Instruction) bool {
+			st, ok := in.(*ssa.Store)
+			if !ok {
+				return false
+			}
+			fa, ok := st.Addr.(*ssa.FieldAddr)
+			if !ok {
+				return false
+			}
+			tn, f := structFieldOf(fa)
+			return tn == "CompositeValue" && f == "base" && len(fn.Params) > 1 && core.IsParamValue(st.Val, fn.Params[len(fn.Params)-1])
+		}
+		ok := len(core.Returns(fn)) > 0
+		for _, ret := range core.Returns(fn) {
+			if !core.MustPass(ret, isStore) {
+				ok = false
+			}
+		}
+		r.Check(ok, "R3.rebind", "interpreter.(CompositeValue).SetBaseValue: base assigned on every returning path", fn.Pos(), "v.base = base before every return",
+			"SetBaseValue can return without assigning the given base (e.g. a same-value-ID shortcut): after a move of the base resource the attachment keeps the invalidated wrapper and `base` fails")
+	}
+	r.Floor("R3.rebind", 1)
 	_ = w
+}
+
+// callsDominateBackEdges: every call selected by sel that stands inside a loop of fn dominates every back edge of that
+// loop — it is executed on every iteration that continues. Returns the number of calls examined.
+func callsDominateBackEdges(r *core.Run, rule string, fn *ssa.Function, sel func(*types.Func) bool, what, why string) int {
+	n := 0
+	for _, c := range core.CallsTo(fn, false, sel) {
+		cb := c.Block()
+		ok := true
+		loops := 0
+		for _, b := range fn.Blocks {
+			for _, h := range b.Succs {
+				if !h.Dominates(b) || !h.Dominates(cb) {
+					continue
+				}
+				if cb != b && !core.ReachableAfter(c, b.Instrs[len(b.Instrs)-1]) {
+					continue
+				}
+				loops++
+				if !cb.Dominates(b) {
+					ok = false
+				}
+			}
+		}
+		if loops == 0 {
+			continue
+		}
+		n++
+		r.Check(ok, rule, what+" #"+itoa(n)+" runs on every iteration", posOf(c), "the call dominates every back edge of its loop", why)
+	}
+	return n
 }
